@@ -62,7 +62,7 @@ def run_engine(pid, seed, n, events=30):
     d = C.workdir(pid)
     fin, fimpl, fmodel, fpred = [os.path.join(d, x) for x in ("conn_in.txt", "conn_impl.txt", "conn_model.txt", "conn_pred.txt")]
     p = C.run([C.HARNESS, "connstep", "-seed", str(seed), "-n", str(n), "-events", str(events), "-in", fin, "-impl", fimpl],
-              cwd=d, timeout=3600)
+              cwd=d, timeout=C.engine_timeout())
     if p.returncode != 0:
         raise RuntimeError("harness connstep failed: " + (p.stdout or "")[-2000:])
     with open(fin) as f, open(fmodel, "w") as g:
